@@ -26,10 +26,12 @@ MIXES = {
     "cre_upd": ([R("create", "1"), R("update", "1", "s1")], [R("", "1", "s1")]),
     "cre3_same": ([R("create", "1"), R("create", "1"), R("create", "1")], []),
     "upd_upd_rech": ([R("update", "1", "s1"), R("update", "1", "s1"), R("recharge", "1")], [R("", "1", "s1")]),
+    "upd_upd_diff": ([R("update", "1", "s1"), R("update", "2", "s2")], [R("", "1", "s1"), R("", "2", "s2")]),
+    "upd_rel_diff": ([R("update", "1", "s1"), R("release", "2", "s2")], [R("", "1", "s1"), R("", "2", "s2")]),
     "rel_cre": ([R("release", "1", "s1"), R("create", "1")], [R("", "1", "s1")]),
     "upd_rel_cre": ([R("update", "1", "s1"), R("release", "1", "s1"), R("create", "1")], [R("", "1", "s1")]),
 }
-QUICK = ["upd_upd", "upd_rel", "upd_rech", "cre_cre_same", "cre_cre_diff", "cre_upd", "rel_cre"]
+QUICK = ["upd_upd", "upd_rel", "upd_rech", "cre_cre_same", "cre_cre_diff", "cre_upd", "rel_cre", "upd_upd_diff", "upd_rel_diff"]
 
 
 def tla_req(r):
@@ -78,8 +80,9 @@ def check(pid, tier, replay=None):
         for procs in ([1, 4, 16] if tier == "quick" else [1, 2, 4, 16]):
             free.append(dict(id="C09-%s-f%d" % (name, procs), mix=mix, existing=ex, schedule=[], gated=False, procs=procs,
                              repeat=6 if tier == "quick" else 40, steps=[1]))
-    wide = [R("update", "1", "s1")] * 6 + [R("recharge", "1")] * 2 + [R("create", "1")] * 4 + [R("create", "2")] * 2 + [R("release", "1", "s1")] * 2
-    free.append(dict(id="C09-wide16", mix=wide, existing=[R("", "1", "s1")], schedule=[], gated=False, procs=16,
+    wide = ([R("update", "1", "s1")] * 4 + [R("update", "2", "s2")] * 3 + [R("recharge", "1")] * 2 + [R("create", "1")] * 3 + [R("create", "2")] * 2
+            + [R("release", "1", "s1")] + [R("release", "2", "s2")])
+    free.append(dict(id="C09-wide16", mix=wide, existing=[R("", "1", "s1"), R("", "2", "s2")], schedule=[], gated=False, procs=16,
                      repeat=4 if tier == "quick" else 40, steps=[1]))
     if replay:
         with open(replay) as f:
